@@ -47,6 +47,8 @@ def run(ctx):
     ctx.need('T6f', 2)
     ctx.need('T6.inherited', 10)
 
+SPEC['explanation'] += " T6o: only self's own lock is ever acquired in the class (no second instance's lock: no lock-order deadlock between a == b and b == a)."
+SPEC['decided'] += ['lock order (own lock only)']
 MANIFEST = {
     'technique': 'lock-discipline (lockset) analysis over all CFG paths of every public operation, receiver-sensitive inlining',
     'text': ('Decides the mutual-exclusion clause of C03 completely for the code as written: on every control-flow '
